@@ -182,6 +182,165 @@ func runC19(c *Ctx) {
 	}
 	c.sites++
 	c.Check(fname(tp)+"#undelivered-tasks-requeued", tp.Pos(), putBack, ifelse(putBack, "remaining request tasks are written back into s.tasks", "tasks of a request that were not delivered are dropped: those nodes are never requested again and the sync never completes (or completes without them)"))
+
+	// ------------------------------------------------------------ Z6
+	c.Rule("C19.Z6", "DECISION", "(*Sync).children leaves a child reference out of the requests it returns — so that the parent does not wait for it — only if the child is embedded (not a hash reference), is in the memory batch, or is in the database; every other reference becomes a request whose parents list holds the parent (schedule de-duplicates and links it)")
+	c.Min(2)
+	{
+		ch := w.Fn("trie", "Sync", "children")
+		c.sawFunc(fname(ch))
+		var ta *ssa.TypeAssert
+		for _, in := range allInstrs(ch) {
+			if t, ok := in.(*ssa.TypeAssert); ok && t.CommaOk && ownerName(t.AssertedType) == "hashNode" {
+				ta = t
+			}
+		}
+		var appendBlocks = map[*ssa.BasicBlock]bool{}
+		reqT := w.Named("trie", "request")
+		for _, ci := range callInstrs(ch) {
+			if bi, ok := ci.Common().Value.(*ssa.Builtin); ok && bi.Name() == "append" {
+				if sl, ok := ci.Common().Args[0].Type().Underlying().(*types.Slice); ok {
+					if pt, ok := sl.Elem().(*types.Pointer); ok && types.Identical(pt.Elem(), reqT) {
+						appendBlocks[ci.Block()] = true
+					}
+				}
+			}
+		}
+		if ta == nil || len(appendBlocks) == 0 {
+			c.Undecided(fname(ch)+"#skip-reasons", ch.Pos(), "the hash-reference test or the request append was not found")
+		} else {
+			// loop header: the innermost loop containing the type assertion
+			var header *ssa.BasicBlock
+			for _, b := range ch.Blocks {
+				if isLoopHeader(b) && naturalLoop(b)[ta.Block()] {
+					if header == nil || naturalLoop(header)[b] {
+						header = b
+					}
+				}
+			}
+			nSkip, bad := 0, 0
+			var badWhy string
+			ok := header != nil && pathsBetween(ch, ta.Block(), header, 5000, func(blocks []*ssa.BasicBlock, facts []Fact) {
+				for _, b := range blocks {
+					if appendBlocks[b] {
+						return
+					}
+				}
+				nSkip++
+				allowed := false
+				for _, a := range atomsOf(facts) {
+					if a.Kind != "true" {
+						continue
+					}
+					ex, isEx := stripConv(a.X).(*ssa.Extract)
+					if !isEx {
+						continue
+					}
+					switch t := ex.Tuple.(type) {
+					case *ssa.TypeAssert:
+						if t == ta && !a.Truth {
+							allowed = true // embedded child
+						}
+					case *ssa.Lookup:
+						if f, _ := loadedField(stripConv(t.X)); f != nil && f.Name() == "batch" && fieldOwner(w, f) == "syncMemBatch" && a.Truth {
+							allowed = true
+						}
+					case *ssa.Call:
+						if o := calleeObj(t); o != nil && o.Name() == "Has" && a.Truth && ex.Index == 0 {
+							if f, _ := loadedField(stripConv(callRecv(t))); f != nil && f.Name() == "database" {
+								allowed = true
+							}
+						}
+					}
+				}
+				if !allowed {
+					bad++
+					badWhy = "a path skips a hash reference that is neither in the memory batch nor in the database"
+				}
+			})
+			c.sites += nSkip
+			if !ok {
+				c.Undecided(fname(ch)+"#skip-reasons", ch.Pos(), "the per-child paths could not be enumerated")
+			} else {
+				c.Check(fname(ch)+"#skip-reasons", ch.Pos(), bad == 0 && nSkip >= 3, ifelse(bad == 0 && nSkip >= 3, fmt.Sprintf("all %d paths that leave a child out have established: embedded, in the memory batch, or in the database", nSkip), fmt.Sprintf("%d of %d paths leave a child out for another reason (%s): the parent is not linked to the outstanding child, is committed while that sub-trie is missing, and after an interruption a later sync takes the stored parent as proof that everything below it is present", bad, nSkip, badWhy)))
+			}
+			// the request carries its parent
+			parentsF := w.Field("trie", "request", "parents")
+			linked := false
+			for _, fw := range fieldWrites(ch) {
+				if fw.Field == parentsF {
+					if derivesFrom(fw.Instr.(*ssa.Store).Val, func(v ssa.Value) bool { return v == ssa.Value(ch.Params[1]) }) {
+						linked = true
+					}
+				}
+			}
+			c.sites++
+			c.Check(fname(ch)+"#request-names-parent", ch.Pos(), linked, ifelse(linked, "each new request lists the parent request", "new child requests do not list their parent: the parent is never completed"))
+		}
+	}
+
+	// ------------------------------------------------------------ Z7
+	c.Rule("C19.Z7", "EXIT", "the error of the final forced flush in (*trieSync).loop — the deferred commit(true), which writes the root — reaches the function's result: the deferred closure stores it into the result variable, and every return reads that variable after the deferred calls ran; Wait() hands out exactly that error")
+	c.Min(2)
+	{
+		lp := w.Fn(dlPkg, "trieSync", "loop")
+		c.sawFunc(fname(lp))
+		commitObj := w.FuncObj(dlPkg, "trieSync", "commit")
+		// the deferred closure that calls commit and stores its error through a captured variable
+		var slot *ssa.Alloc
+		for _, in := range allInstrs(lp) {
+			d, ok := in.(*ssa.Defer)
+			if !ok {
+				continue
+			}
+			mc, ok := d.Call.Value.(*ssa.MakeClosure)
+			if !ok {
+				continue
+			}
+			cl := mc.Fn.(*ssa.Function)
+			cc := callsTo(cl, commitObj)
+			if len(cc) == 0 {
+				continue
+			}
+			for i, fv := range cl.FreeVars {
+				for _, r := range *fv.Referrers() {
+					if st, ok := r.(*ssa.Store); ok && st.Addr == ssa.Value(fv) && derivesFrom(st.Val, func(v ssa.Value) bool { return v == cc[0].Value() }) {
+						if a, ok := mc.Bindings[i].(*ssa.Alloc); ok {
+							slot = a
+						}
+					}
+				}
+			}
+		}
+		c.sites++
+		if slot == nil {
+			c.Fail(fname(lp)+"#final-flush-error-stored", lp.Pos(), "no deferred call stores the error of commit(true) into a variable of loop: a failed final batch write is lost")
+		} else {
+			c.Pass(fname(lp)+"#final-flush-error-stored", slot.Pos(), "the deferred closure stores commit's error into a captured variable")
+			nRet, bad := 0, 0
+			for _, b := range lp.Blocks {
+				r, ok := b.Instrs[len(b.Instrs)-1].(*ssa.Return)
+				if !ok || b == lp.Recover {
+					continue
+				}
+				nRet++
+				// the result is loaded from the slot after RunDefers in this block
+				good := false
+				if u, isU := r.Results[0].(*ssa.UnOp); isU && u.X == ssa.Value(slot) && u.Block() == b {
+					for i := instrIndex(u) - 1; i >= 0; i-- {
+						if _, isRD := b.Instrs[i].(*ssa.RunDefers); isRD {
+							good = true
+						}
+					}
+				}
+				if !good {
+					bad++
+				}
+			}
+			c.sites += nRet
+			c.Check(fname(lp)+"#returns-read-result-after-defers", lp.Pos(), bad == 0 && nRet > 0, ifelse(bad == 0 && nRet > 0, fmt.Sprintf("all %d returns read the variable the deferred flush writes, after the deferred calls ran", nRet), fmt.Sprintf("%d of %d returns take their value before the deferred final flush runs (the result is not the variable the closure writes): a failed write of the last batch — the one holding the root — is reported as success, and the caller records the sync as done", bad, nRet)))
+		}
+	}
 }
 
 func fieldBaseType(v ssa.Value) types.Type {
